@@ -367,8 +367,9 @@ def decode_sample(hexvals, limit=64):
 
 # ------------------------------------------------------------------ evidence
 def write_evidence(pid, ev):
-    os.makedirs(os.path.join(VERIF, 'evidence'), exist_ok=True)
-    p = os.path.join(VERIF, 'evidence', pid + '.json')
+    d = os.environ.get('VERIF_EVIDENCE_DIR', os.path.join(VERIF, 'evidence'))
+    os.makedirs(d, exist_ok=True)
+    p = os.path.join(d, pid + '.json')
     with open(p + '.tmp', 'w') as f:
         json.dump(ev, f, indent=1, sort_keys=True)
     os.replace(p + '.tmp', p)
